@@ -151,16 +151,18 @@ structure TEntry where
   content : Bytes
 deriving DecidableEq, Repr
 
+/-- `dir := filepath.Dir(dest); if dir != "" && dir != "." { os.MkdirAll(dir, 0700) }`:
+    a cleaned `Dir` is never empty; `.` is the empty relative path -/
+def tarParent (fs : FS) (t : CPath) : Option FS :=
+  if !(dirOf t).rooted && (dirOf t).segs.isEmpty then some fs else mkdirAll fs (dirOf t).segs 448
+
 def untarEntry (g : Bool) (dir : Bytes) (fs : FS) (e : TEntry) : Except XErr FS :=
   match untarTarget g dir e.name with
   | none => .error .refused
   | some t =>
     match e.kind with
     | .reg =>
-      -- `if dir != "" && dir != "."`: a cleaned `Dir` is never empty; `.` is the empty relative path
-      let d := dirOf t
-      let r1 := if !d.rooted && d.segs = [] then some fs else mkdirAll fs d.segs 448
-      match r1 with
+      match tarParent fs t with
       | none => .error .os
       | some fs1 =>
         match createKeep fs1 t.segs e.perm e.content with
@@ -201,6 +203,34 @@ def zipFile (base : Seg) (perm : Nat) (content : Bytes) : List ZEntry := [⟨bas
 /-- the part of a file system below `d`, relative to `d` (the tree that was extracted) -/
 def subtree (fs : FS) (d : List Seg) : Tree :=
   fs.filterMap (fun e => if d.isPrefixOf e.1 then some (e.1.drop d.length, e.2) else none)
+
+/-! ### trees in walk order (hypothesis of the round trip; the driver evaluates it on
+    the trees the harness builds with `filepath.Walk` order) -/
+
+def isDirNode : Node → Bool
+  | .dir _ => true
+  | .file _ _ => false
+
+/-- an item may follow the items `t₁`: real path elements, not there yet, every
+    proper ancestor is an earlier directory; the root is a directory -/
+def entryOK (t₁ : Tree) (x : List Seg × Node) : Bool :=
+  x.1.all (fun s => decide (Plain s)) && (t₁.lookup x.1).isNone &&
+  (List.range x.1.length).all (fun k =>
+    match t₁.lookup (x.1.take k) with
+    | some (.dir _) => true
+    | _ => false) &&
+  (!x.1.isEmpty || isDirNode x.2)
+
+def treeOKFrom (t₁ : Tree) : Tree → Bool
+  | [] => true
+  | x :: rest => entryOK t₁ x && treeOKFrom (t₁ ++ [x]) rest
+
+/-- a tree as `filepath.Walk` lists it: the root directory `[]` first, every item
+    after the directory that contains it, no path twice, real path elements only -/
+def treeOK (t : Tree) : Bool := treeOKFrom [] t
+
+/-- the tree `t` placed below the absolute directory `D` -/
+def shift (D : List Seg) (t : Tree) : FS := t.map (fun e => (D ++ e.1, e.2))
 
 /-! ### `tarutil.TarZipFile`: name of the tar header written for a zip entry -/
 
